@@ -694,8 +694,13 @@ class MementoFunctionHashRule(HashRule):
         # different mechanism (the global counter), but it is possible that a symbol
         # pointing to a memento function is now pointing to something else, or even undefined
         # so detect if that happened, else return `False`.
+        # It also changed if the symbol now points to a different function object, which
+        # happens when the rule was collected while a function of that name was being
+        # redefined (the decorator runs before the name is bound to the new function).
         new_fn = self.resolver()
-        return not isinstance(new_fn, MementoFunctionType)
+        return (
+            not isinstance(new_fn, MementoFunctionType) or new_fn is not self.memento_fn
+        )
 
     def __repr__(self):
         return f"MementoFunctionHashRule(key={repr(self.key)})"
